@@ -164,6 +164,12 @@ func RunCheck(o CheckOpts) (*CheckReport, error) {
 			units = append(units, eng.DisciplineUnit(m))
 		}
 	}
+	// raw SMT lemmas of this property (specs/lemmas/<prop>-*.smt2)
+	if o.Only == "" {
+		if raw := rawLemmaUnit(eng, o); raw != nil {
+			units = append(units, raw)
+		}
+	}
 	// lemmas of this property
 	lem := eng.VerifyLemmas(o.Prop)
 	if lem != nil {
@@ -364,4 +370,32 @@ func setList(m map[string]bool) []string {
 	}
 	sort.Strings(out)
 	return out
+}
+
+// rawLemmaUnit loads hand-written SMT-LIB lemma scripts (used where the fact is about a theory the VC generator
+// does not model, e.g. IEEE floating point). Header: "; obligation: <name>".
+func rawLemmaUnit(eng *Engine, o CheckOpts) *FnRun {
+	files, _ := filepath.Glob(filepath.Join(o.VerifDir, "specs", "lemmas", o.Prop+"-*.smt2"))
+	if len(files) == 0 {
+		return nil
+	}
+	sort.Strings(files)
+	r := eng.NewRun(nil, nil)
+	r.lemmaRun = true
+	for _, f := range files {
+		b, err := os.ReadFile(f)
+		if err != nil {
+			r.Unsupported = append(r.Unsupported, err.Error())
+			continue
+		}
+		name := filepath.Base(f)
+		for _, line := range strings.Split(string(b), "\n") {
+			if strings.HasPrefix(line, "; obligation:") {
+				name = strings.TrimSpace(strings.TrimPrefix(line, "; obligation:"))
+			}
+		}
+		r.Obls = append(r.Obls, &Obligation{Name: name, Kind: "lemma", Raw: string(b), Src: "raw SMT lemma " + f, File: f, Fn: "lemmas", Script: r.Sc})
+		r.Trusted["raw lemma "+filepath.Base(f)+": the SMT text is hand-written (it states a fact about IEEE-754 conversion, not about Go code)"] = true
+	}
+	return r
 }
